@@ -106,6 +106,15 @@ def run(tier, seed, rng):
             hists.append([(bc, [dict(variant=v1), dict(variant=v2)])])
             hists.append([(bc, [dict(variant=v1), dict(variant=v2), dict(variant=v1), dict(variant=v2)])])
             hists.append([(bc, [dict(variant=v2)]), (bc, [dict(variant=v1), dict(variant=v2)])])
+    # ---- LONG declarations (24 fields, each its own block of generated code) that differ in ONE field in the middle, the generated
+    # texts of equal length: a comparison of sizes, of the first and last KiB, of a checksum over a window cannot tell them apart
+    def longdecl(mid):
+        return custom("\n    ".join((f"n{i:02d} = {mid}" if i == 12 else f"n{i:02d} = Int(3)") for i in range(24)))
+    for m1, m2 in (('Int(2)', 'Int(4)'), ('Int(5)', 'Int(7)'), ('Int(2)', 'Int(8)')):
+        v1, v2 = longdecl(m1), longdecl(m2)
+        hists.append([(False, [dict(variant=v1)]), (False, [dict(variant=v2)])])
+        hists.append([(True, [dict(variant=v1), dict(variant=v2), dict(variant=v1)])])
+        hists.append([(True, [dict(variant=v2)]), (False, [dict(variant=v1)])])
     # ---- survey of the constant the generated module is recognised by: many declarations, any two with the same constant but
     # different code are a collision; each collision found is then run as a history like the ones above
     nsurvey = 1500 if tier == 'quick' else 40000
